@@ -21,6 +21,7 @@ from xknx import XKNX
 from xknx.devices import Sensor
 from xknx.dpt import DPTArray, DPTBinary
 from xknx.telegram import GroupAddress, IndividualAddress, Telegram, TelegramDirection
+from xknx.telegram.address import InternalGroupAddress
 from xknx.telegram.apci import GroupValueResponse, GroupValueWrite
 
 LEVEL = "exploration"
@@ -186,10 +187,18 @@ def _queue_monitor(ctx, classes, fixed=None, script=None):
     table = []
     for i, cls in enumerate(classes):
         table.append((GroupAddress(i + 1), cls))
+    # internal group addresses ("i-...") live in the same table and the same error bookkeeping
+    step = 1 if fixed is not None else 4
+    for i, cls in enumerate(classes[::step]):
+        table.append((InternalGroupAddress(f"i-c07-{i}"), cls))
     forms = {cls: _public_form(cls) for _ga, cls in table}
     telegrams = []
     for ga, cls in table:
-        for k, payload in enumerate(fixed if fixed is not None else _queue_payloads(ctx, cls, rng)):
+        payloads = fixed if fixed is not None else _queue_payloads(ctx, cls, rng)
+        if fixed is None and isinstance(ga, InternalGroupAddress):
+            payloads = rng.sample(payloads, min(len(payloads), ctx.scale(40, 400)))
+            ctx.count("queue_telegrams_to_internal_addresses", len(payloads))
+        for k, payload in enumerate(payloads):
             try:
                 apci = GroupValueResponse(payload) if k % 5 == 4 else GroupValueWrite(payload)
             except G.DECLARED_ERRORS:
@@ -329,6 +338,7 @@ def _queue_monitor(ctx, classes, fixed=None, script=None):
                 ctx.violation(
                     mech,
                     {"cls": cls.__name__, "configured_now": now.__name__ if now else None, "payload": G.describe(payload),
+                     "address": str(telegram.destination_address),
                      "apci": type(telegram.payload).__name__, "exception": repr(exc)[:200], "failure": failure,
                      "config_history": history[-12:]},
                     f"incoming telegram for a group address configured as {now.__name__ if now else None} with payload {payload!r} after "
@@ -394,7 +404,7 @@ def run(ctx):
         "lengths, per-position sweeps and random arrays of the own length); distinct = (class, payload kind, length, outcome class); "
         "queue monitor: one GA per class via group_address_dpt.set(), shuffled incoming GroupValueWrite/Response telegrams, join() per session"
     )
-    ctx.require("decoded_value", "rejected_CouldNotParseTelegram", "rejected_ConversionError", "interleaved_decodes", "queue_telegrams_processed", "queue_telegrams_decoded", "queue_clean_stops", "queue_table_clear", "queue_table_set")
+    ctx.require("decoded_value", "rejected_CouldNotParseTelegram", "rejected_ConversionError", "interleaved_decodes", "queue_telegrams_processed", "queue_telegrams_decoded", "queue_clean_stops", "queue_table_clear", "queue_table_set", "queue_telegrams_to_internal_addresses")
     classes = G.concrete_dpt_classes()
     ctx.extra["dpt_classes"] = len(classes)
     if len(classes) < 200:
